@@ -12,9 +12,13 @@ LimVecs == {<<100,100,100>>, <<150,150,150>>, <<200,200,200>>, <<300,300,300>>, 
 DsFor(lv) == {<<a * lv[1], b * lv[2], c * lv[3]>> : a \in {-1, 1}, b \in {-1, 1}, c \in {-1, 1}}
         \cup {<<lv[1], 0, 0>>, <<-lv[1], 0, 25>>, <<0, lv[2], 0>>, <<50, -lv[2], 0>>, <<0, 0, lv[3]>>, <<0, -75, -lv[3]>>}
         \cup {<<0, 0, 0>>, <<25, -50, 75>>, <<-75, 25, 50>>, <<100, -100, 0>>, <<lv[1] - 25, 25 - lv[2], lv[3] - 50>>, <<-25, 75, -100>>}
+(* search ranges at or beyond half the box (and beyond the whole box on some axes): the particle itself moves little *)
+WideLims == {<<600, 800, 1300>>, <<1600, 650, 700>>}
+DsWide == {<<0, 0, 0>>, <<25, -50, 75>>, <<-75, 25, 50>>, <<100, -100, 0>>, <<-150, -125, -100>>, <<-25, 75, -100>>, <<-200, 150, -175>>, <<-100, -200, -50>>}
 Boxes == {<<12,12,12>>, <<13,13,13>>, <<12,13,14>>, <<13,16,12>>}
 Cases == UNION {[model : {"ZNCC", "NCC", "PCC", "FSC"}, lim : {lv}, d : DsFor(lv),
                  box : Boxes, mask : {"none", "soft"}, cutoff : {0, 40}, tilt : {"none", "id", "rotq"}, bg : {0, 2}] : lv \in LimVecs}
+         \cup [model : {"ZNCC", "NCC", "PCC"}, lim : WideLims, d : DsWide, box : Boxes, mask : {"none"}, cutoff : {0}, tilt : {"none"}, bg : {0}]
 Valid(c) == (c.model = "FSC" => c.lim \in {<<100,100,100>>, <<150,150,150>>, <<200,200,200>>, <<100,250,150>>})
             /\ \A a \in 1..3 : c.d[a] <= c.lim[a] /\ -c.d[a] <= c.lim[a]
             \* bg: the density sits on a constant background (same in template and sub-volume); plain cases only
